@@ -331,7 +331,21 @@ def vec_models():
             return iter_next(I, s, itv, n, lambda s2, x, n2: loop(s2, acc + [x], n2),
                              lambda s2, n2: I.ret(s2, s2.frames[-1], t, F.Agg('vec', None, list(acc))), t['line'])
         return _top(I, st, lambda s: loop(s, [], 0))
+    def m_reorder(I, st, fr, t, args, name):
+        v = target(I, st, args[0])
+        if v is None or len(v.fields) > 1:
+            return NotImplemented          # only the trivial cases: order of 0 or 1 elements
+        return unit()
+
+    def m_slice_of_vec(I, st, fr, t, args, name):
+        # `Vec<T> as DerefMut` (receiver of slice methods): the list itself
+        v = target(I, st, args[0])
+        if v is None:
+            return NotImplemented
+        return args[0]
     return {
+        r'slice::<impl \[T\]>::(sort\w*|reverse)$': m_reorder,
+        r'^<std::vec::Vec<T, A> as std::ops::Deref(Mut)?>::deref(_mut)?$': m_slice_of_vec,
         r'^std::vec::Vec::<T>::(new|with_capacity)$': m_new,
         r'^std::vec::Vec::<T, A>::push$': m_push,
         r'^std::vec::Vec::<T, A>::(len|is_empty)$': m_len,
